@@ -259,6 +259,11 @@ fn replay(case: &str) {
     if !done { done = dtlslive::replay_special(&mut run, stream, &args); }
     if !done { done = srtp::replay_special(&mut run, stream, &args); }
     if !done { println!("unknown stream {stream}"); }
+    else if args.len() != 1 || !all_targets().iter().any(|t| t.stream == stream) {
+        use std::io::Write;
+        let _ = run.imp.flush();
+        if let Ok(t) = std::fs::read_to_string("/tmp/c07-replay/impl.txt") { for l in t.lines() { println!("impl: {}", l.splitn(4, ' ').nth(3).unwrap_or("")); } }
+    }
     for f in &run.fails { println!("ORACLE-FAIL {} :: {}", f.signature, f.detail); }
     let _ = std::fs::remove_dir_all("/tmp/c07-replay");
 }
